@@ -7,21 +7,89 @@ def H(harness, bounds, **kw):
     return d
 
 COMMON_ASSUMPTIONS = [
-    "engine: own symbolic interpreter for go/ssa (x/tools v0.29.0) over /repo's current source; integers are bit-vectors at their Go width; heap shape concrete per path, scalars symbolic",
+    "engine: own symbolic interpreter for go/ssa (x/tools v0.29.0) over /repo's current source; integers are bit-vectors at their Go width; heap shape concrete per path, scalars symbolic; append/growslice capacity policy mirrored from the Go 1.23 runtime",
+    "keys are a user Key type whose Order compares a symbolic 64-bit id and whose Layer is an uninterpreted function of the id bounded by Lmax: every total order (ties included) and every layer assignment of the keys in play is covered",
     "hash stub: blake2b.Sum256 and base64 EncodeToString are functional and injective (equal names iff equal input bytes); the real digest is computed when the input is concrete",
-    "fmt.Errorf/Sprintf are intrinsics (message text opaque, %w operand kept); reflect.TypeOf/New/ValueOf/Elem/Interface/Set/DeepEqual are intrinsics over engine values",
+    "fmt.Errorf/Sprintf are intrinsics (message text opaque, %w operand kept); reflect.TypeOf/New/ValueOf/Elem/Interface/Set/DeepEqual are intrinsics over engine values; sync.Mutex/WaitGroup/Once, channels and goroutines run under the engine scheduler",
     "encoding/json (default marshaler) and the golang-lru ARC cache are not executed; harness marshalers (8-byte fixed width) and harness caches stand in",
-    "goroutines in flush run under the engine scheduler; unless stated, one deterministic schedule",
+    "unless a run says sched, goroutines in flush follow one deterministic schedule",
+    "solver: z3 4.8.12 over a pipe (QF_BV terms, no set-logic), per-query timeout, z3 5.1.0 one-shot fallback on unknown; any (error answer is treated as inconclusive",
 ]
+
+B2 = {"BF": 2, "Lmax": 2}
+
+def b(**kw):
+    d = dict(B2)
+    d.update(kw)
+    return d
 
 PROPERTIES = {
     "C01": {
-        "level": "model_checking",
         "runs": {
-            "quick": [H("HarnessC01a", {"K": 3, "BF": 2, "Lmax": 2})],
-            "thorough": [H("HarnessC01a", {"K": 3, "BF": 2, "Lmax": 2}), H("HarnessC01a", {"K": 4, "BF": 2, "Lmax": 2}, sample_every=500)],
+            "quick": [H("HarnessC01a", b(K=3, CACHE=0))],
+            "thorough": [H("HarnessC01a", b(K=3, CACHE=0)), H("HarnessC01a", b(K=3, CACHE=1)), H("HarnessC01a", b(K=3, CACHE=0, BF=3)),
+                         H("HarnessC01a", b(K=4, CACHE=0), sample_every=500)],
         },
-        "bounds_statement": "histories of <= K operations from the empty tree",
+        "labels": ["C01."],
+        "extra_labels": ["uncaught-panic", "deadlock"],
+        "must_reach": ["C01.step.iter-seq", "C01.step.get-found", "C01.h.delete.result"],
+        "bounds_statement": "histories of <= K operations (insert / delete with arbitrary key and value / persist+reload / clone / persist) from the empty tree over symbolic keys (any order, ties, any layer <= Lmax); battery after every operation",
+        "outside": ["histories longer than K", "built-in key types at tree level (covered per type by the C14 leaf harnesses)", "default JSON marshaler", "branch factors other than those listed"],
+        "assumptions": COMMON_ASSUMPTIONS,
+    },
+    "C04": {
+        "runs": {
+            "quick": [H("HarnessC04a", b(K=3, NOPS=3))],
+            "thorough": [H("HarnessC04a", b(K=4, NOPS=3), sample_every=200), H("HarnessC04a", b(K=3, NOPS=4)), H("HarnessC04a", b(K=3, NOPS=3, BF=3))],
+        },
+        "must_reach": ["C04.height-rule", "C04.same-link"],
+        "bounds_statement": "histories of <= K operations from the empty tree; final persisted root compared with (a) the height rule and (b) the root of a fresh tree given the same entries in ascending order",
+        "assumptions": COMMON_ASSUMPTIONS,
+    },
+    "C05": {
+        "runs": {
+            "quick": [H("HarnessC05a", b(K=2, K2=1, FMT=0, CACHE=0)), H("HarnessC05a", b(K=2, K2=1, FMT=1, CACHE=1)), H("HarnessC05a", b(K=2, K2=1, FMT=2, CACHE=0))],
+            "thorough": [H("HarnessC05a", b(K=3, K2=1, FMT=f, CACHE=c), sample_every=200) for f in (0, 1, 2) for c in (0, 1)],
+        },
+        "must_reach": ["C05.reloaded.iter-seq", "C05.size"],
+        "bounds_statement": "trees from <= K inserts/deletes, persisted and re-loaded, <= K2 further operations, persisted and re-loaded again; both node formats, both v1marshaler decode paths, cache on/off",
+        "outside": ["JSON round trip of the Root record and the default JSON marshaler (encoding/json is not encodable)"],
+        "assumptions": COMMON_ASSUMPTIONS,
+    },
+    "C08": {
+        "runs": {
+            "quick": [H("HarnessC08a", b(K=3, CACHE=0))],
+            "thorough": [H("HarnessC08a", b(K=4, CACHE=0), sample_every=200), H("HarnessC08a", b(K=3, CACHE=1))],
+        },
+        "must_reach": ["C08.name-is-hash-of-bytes", "C08.bytes-are-canonical-encoding", "C08.reencode-same-root"],
+        "bounds_statement": "every Store call of every history of <= K operations (incl. persist+reload) and of the final persist",
+        "assumptions": COMMON_ASSUMPTIONS,
+    },
+    "C09": {
+        "runs": {
+            "quick": [H("HarnessC04a", b(K=3, NOPS=3))],
+            "thorough": [H("HarnessC04a", b(K=4, NOPS=3), sample_every=200), H("HarnessC04a", b(K=3, NOPS=3, BF=3))],
+        },
+        "must_reach": ["C09.layers", "C09.ranges", "C09.no-empty-node", "C09.size"],
+        "bounds_statement": "persisted version after every history of <= K operations; every reachable node decoded by an independent reader",
+        "assumptions": COMMON_ASSUMPTIONS,
+    },
+    "C13": {
+        "runs": {
+            "quick": [H("HarnessC13a", b(N=3, B=1, RELOAD=1))],
+            "thorough": [H("HarnessC13a", b(N=3, B=2, RELOAD=1), sample_every=200), H("HarnessC13a", b(N=3, B=1, RELOAD=0)), H("HarnessC13a", b(N=4, B=1, RELOAD=1), sample_every=200)],
+        },
+        "must_reach": ["C13.written-is-reachable", "C13.rewrite-only-in-range", "C13.write-count", "C13.clean-implies-unchanged"],
+        "bounds_statement": "V0 = N arbitrary inserts, persisted (re-loaded or not), then B symbolic modifications, then the second persist's Store log",
+        "assumptions": COMMON_ASSUMPTIONS,
+    },
+    "C16": {
+        "runs": {
+            "quick": [H("HarnessC16a", b(N=4))],
+            "thorough": [H("HarnessC16a", b(N=5), sample_every=200), H("HarnessC16a", b(N=4, BF=3))],
+        },
+        "must_reach": ["C16.get-reads-path", "C16.insert-reads-two-paths", "C16.delete-reads-two-paths", "C16.loadmast-reads-top-only"],
+        "bounds_statement": "persisted trees of N ascending entries (all layer assignments, heights 0..2), cache-less; one Get/Insert/Delete with a symbolic key",
         "assumptions": COMMON_ASSUMPTIONS,
     },
 }
